@@ -485,6 +485,65 @@ fn run_op(w: &mut World, op: &Value) -> Value {
             json!({"result": match r { Ok(Ok(())) => "Ok".to_string(), Ok(Err(e)) => format!("{:?}", e), Err(_) => "trap".to_string() },
                    "count_delta": after - before, "len": tx.len()})
         }
+        "fetch_script" => {
+            use ic_btc_canister::runtime::{set_successors_responses, GetSuccessorsReply};
+            use ic_btc_canister::types::{GetSuccessorsCompleteResponse, GetSuccessorsPartialResponse, GetSuccessorsResponse};
+            use ic_cdk::call::RejectCode;
+            // blocks offered by the source: a regtest chain on top of the canister's genesis
+            let genesis = Block::new(bitcoin::blockdata::constants::genesis_block(BtcNetwork::Regtest));
+            let mut prev = *genesis.header();
+            let mut next_block = || {
+                let b = BlockBuilder::with_prev_header(prev).build();
+                prev = b.header;
+                let mut bytes = vec![];
+                use bitcoin::consensus::Encodable;
+                b.consensus_encode(&mut bytes).unwrap();
+                bytes
+            };
+            let mut replies = vec![];
+            let mut pages: Vec<Vec<u8>> = vec![];
+            for r in op["replies"].as_array().unwrap() {
+                match r[0].as_str().unwrap() {
+                    "complete" => {
+                        let n = r[1].as_u64().unwrap();
+                        let blocks = (0..n).map(|_| next_block()).collect();
+                        replies.push(GetSuccessorsReply::Ok(GetSuccessorsResponse::Complete(GetSuccessorsCompleteResponse { blocks, next: vec![] })));
+                    }
+                    "partial" => {
+                        let k = r[1].as_u64().unwrap() as usize;
+                        let bytes = next_block();
+                        let parts = k.min(8) + 1;
+                        let sz = bytes.len() / parts + 1;
+                        let mut chunks: Vec<Vec<u8>> = bytes.chunks(sz).map(|c| c.to_vec()).collect();
+                        while chunks.len() < parts { chunks.push(vec![]); }
+                        let first = chunks.remove(0);
+                        pages = chunks;
+                        replies.push(GetSuccessorsReply::Ok(GetSuccessorsResponse::Partial(GetSuccessorsPartialResponse {
+                            partial_block: first, next: vec![], remaining_follow_ups: k as u8 })));
+                    }
+                    "followup" => {
+                        let page = if pages.is_empty() { vec![] } else { pages.remove(0) };
+                        replies.push(GetSuccessorsReply::Ok(GetSuccessorsResponse::FollowUp(page)));
+                    }
+                    _ => replies.push(GetSuccessorsReply::Err(RejectCode::CanisterReject, "rejected".to_string())),
+                }
+            }
+            set_successors_responses(replies);
+            let h0 = ic_btc_canister::get_blockchain_info().height;
+            let mut traps = 0;
+            let mut last_trap = String::new();
+            for _ in 0..op["heartbeats"].as_u64().unwrap_or(10) {
+                let r = catch_unwind(AssertUnwindSafe(|| block_on(ic_btc_canister::heartbeat())));
+                if let Err(e) = r {
+                    traps += 1;
+                    last_trap = e.downcast_ref::<String>().cloned().or_else(|| e.downcast_ref::<&str>().map(|s| s.to_string())).unwrap_or_default();
+                    // IC semantics: the message is rolled back; the mock state is not, so the guard flag is restored by hand
+                    with_state_mut(|s| s.syncing_state.is_fetching_blocks = false);
+                }
+            }
+            let h1 = ic_btc_canister::get_blockchain_info().height;
+            json!({"traps": traps, "applied": h1 - h0, "last_trap": last_trap})
+        }
         "tree" => {
             let hashes = with_state(|s| unstable_blocks::get_block_hashes(&s.unstable_blocks));
             json!({"blocks": hashes.iter().map(|h| block_id_of(w, &h.to_vec())).collect::<Vec<_>>(),
